@@ -20,6 +20,39 @@ type schemaShape struct {
 	Key   *schemaShape            // for map
 	Elem  *schemaShape            // for map/list
 	Src   string
+	Cons  []string // non-nil size / range / pattern arguments of the constructor ("list min", "string pattern", …)
+}
+
+// constraints lists every constraint in the shape tree, with its path.
+func (s *schemaShape) constraints(path string) []string {
+	if s == nil {
+		return nil
+	}
+	var out []string
+	for _, c := range s.Cons {
+		out = append(out, path+": "+c)
+	}
+	for k, p := range s.Props {
+		out = append(out, p.constraints(path+"."+k)...)
+	}
+	out = append(out, s.Key.constraints(path+"{key}")...)
+	out = append(out, s.Elem.constraints(path+"[]")...)
+	sort.Strings(out)
+	return out
+}
+
+func consArgs(kind string, names []string, args []ast.Expr) []string {
+	var out []string
+	for i, n := range names {
+		if i >= len(args) {
+			break
+		}
+		if id, ok := args[i].(*ast.Ident); ok && id.Name == "nil" {
+			continue
+		}
+		out = append(out, kind+" "+n)
+	}
+	return out
 }
 
 func (s *schemaShape) String() string {
@@ -211,19 +244,19 @@ func (pl *plit) schemaOf(e ast.Expr, depth int) *schemaShape {
 				return pl.propsOf(x.Args[1], depth+1)
 			}
 		case pkgSchema + ".NewStringSchema":
-			return &schemaShape{Kind: "string"}
+			return &schemaShape{Kind: "string", Cons: consArgs("string", []string{"min length", "max length", "pattern"}, x.Args)}
 		case pkgSchema + ".NewBoolSchema":
 			return &schemaShape{Kind: "bool"}
 		case pkgSchema + ".NewIntSchema":
-			return &schemaShape{Kind: "int"}
+			return &schemaShape{Kind: "int", Cons: consArgs("int", []string{"min", "max"}, x.Args)}
 		case pkgSchema + ".NewFloatSchema":
-			return &schemaShape{Kind: "float"}
+			return &schemaShape{Kind: "float", Cons: consArgs("float", []string{"min", "max"}, x.Args)}
 		case pkgSchema + ".NewAnySchema":
 			return &schemaShape{Kind: "any"}
 		case pkgSchema + ".NewListSchema":
-			return &schemaShape{Kind: "list", Elem: pl.schemaOf(x.Args[0], depth+1)}
+			return &schemaShape{Kind: "list", Elem: pl.schemaOf(x.Args[0], depth+1), Cons: consArgs("list", []string{"min items", "max items"}, x.Args[1:])}
 		case pkgSchema + ".NewMapSchema":
-			return &schemaShape{Kind: "map", Key: pl.schemaOf(x.Args[0], depth+1), Elem: pl.schemaOf(x.Args[1], depth+1)}
+			return &schemaShape{Kind: "map", Key: pl.schemaOf(x.Args[0], depth+1), Elem: pl.schemaOf(x.Args[1], depth+1), Cons: consArgs("map", []string{"min items", "max items"}, x.Args[2:])}
 		}
 		// a repo function returning a schema: evaluate its single return expression
 		if o := pl.calleeObj(x); o != nil {
